@@ -60,6 +60,11 @@ fn main() {
     let item = Decoder::new().decode_compact_serialization(jws2.as_bytes(), Some(b"raw payload")).map_err(|e| format!("decode detached: {e}"))?;
     if item.signing_input() != [p2.as_bytes(), b".", b"raw payload"].concat() { return Err("detached/b64=false: wrong signing input".into()); }
     if item.claims() != b"raw payload" { return Err("detached/b64=false: claims are not the raw payload".into()); }
+    // b64 is read from the PROTECTED header only: an unprotected header must not switch the payload decoding back on
+    let f = format!(r#"{{"payload":"dGVzdA","protected":"{p2}","header":{{"kid":"k"}},"signature":"{}"}}"#, b64("sig"));
+    let item = Decoder::new().decode_flattened_serialization(f.as_bytes(), None).map_err(|e| format!("decode flattened b64=false with unprotected header: {e}"))?;
+    if item.claims() != b"dGVzdA" { return Err(format!("b64=false in the protected header + an unprotected header: claims are {:?}, not the raw payload", String::from_utf8_lossy(item.claims()))); }
+    if item.signing_input() != [p2.as_bytes(), b".", b"dGVzdA"].concat() { return Err("b64=false + unprotected header: wrong signing input".into()); }
     Ok(())
   });
 }
